@@ -378,6 +378,14 @@ ADitNext(e) ==
        /\ obs' = Obs("dit_next", props, Judge(r.seg, props, e.res.kind, val, exp, [end |-> TRUE, term |-> <<>>, count |-> -1]), exp, e.res)
        /\ UNCHANGED <<segs, files, pls, its, bms, built, digs>>
 
+\* DictionaryIterator.Close(): succeeds; the handle is gone, every other iterator (also the ones that were given the
+\* same shared empty object for an unknown field or an empty range) goes on as if nothing had happened
+ADitClose(e) ==
+    /\ e.r \in DOMAIN dvrs
+    /\ dvrs' = [k \in DOMAIN dvrs \ {e.r} |-> dvrs[k]]
+    /\ obs' = Obs("dit_close", {"C08", "C13"}, IF e.res.kind = "ok" THEN {} ELSE {"C08", "C13"}, 0, e.res)
+    /\ UNCHANGED <<segs, files, pls, its, bms, built, digs>>
+
 AMatch(e) ==
     LET c == segs[e.seg].c
         exp == Matching(c, e.pairs)
@@ -523,7 +531,7 @@ ARace(e) ==
 \* L is the length of the fault-free file.
 OutcomeBad(o, mode, L) ==
     LET k == o[1]  err == o[2]  complete == o[4]  n == o[6] IN
-    IF mode \in {"fail", "retry", "fail1", "failsync"}   \* "failsync": "fail" on a destination that also has a Sync method; "retry": a second WriteTo on the same Merger after a complete first one;
+    IF mode \in {"fail", "retry", "fail1", "failsync", "fullerr1"}   \* "fullerr1": one Write call takes all its bytes AND returns an error, later calls are accepted; "failsync": "fail" on a destination that also has a Sync method; "retry": a second WriteTo on the same Merger after a complete first one;
                                               \* "fail1": a single Write call fails, later ones are accepted again
     THEN \/ err \in {"panic", "blocked", "closed"}
          \/ (k < L /\ err = "nil")                              \* silent success on a failed writer
@@ -554,6 +562,14 @@ AMergeFSweep(e) ==
                IF \E i \in DOMAIN e.outcomes : SweepBad(e.outcomes[i]) THEN {"C19", "C03"} ELSE {}
         firstBad == IF bad # {} THEN e.outcomes[CHOOSE i \in DOMAIN e.outcomes : SweepBad(e.outcomes[i])] ELSE <<>>
     IN /\ obs' = Obs("merge_fsweep", {"C19", "C03"}, bad, <<e.file, e.seg, e.reads>>, firstBad)
+       /\ Frame
+
+\* C19 / C04: the same file loaded through on-demand storage while ONE read of the Load call fails.  A Load that
+\* reports success yields the segment an undisturbed Load yields (same full observation); nothing panics or hangs.
+ALoadFSweep(e) ==
+    LET bad == IF \E i \in DOMAIN e.outcomes : SweepBad(e.outcomes[i]) THEN {"C19", "C04"} ELSE {}
+        firstBad == IF bad # {} THEN e.outcomes[CHOOSE i \in DOMAIN e.outcomes : SweepBad(e.outcomes[i])] ELSE <<>>
+    IN /\ obs' = Obs("load_fsweep", {"C19", "C04"}, bad, <<e.file, e.reads>>, firstBad)
        /\ Frame
 
 \* the harness dropped its temporary handles; forget them too (keeps the tables small)
